@@ -48,3 +48,56 @@ Definition needed_by (rs : list sroot) (l : plink) (ri rj : sroot) : Prop :=
   In ri rs /\ In rj rs /\ lfg (pl_l l) = sr_grp ri /\ rfg (pl_l l) = sr_grp rj.
 (* the classes of the roots have no generated ancestors (every generated class derives directly from FeatureGroup) *)
 Definition flat_roots (mro : cls -> list cls) (rs : list sroot) : Prop := forall r, In r rs -> mro (sr_grp r) = [sr_grp r].
+
+(* ---------- the plan of a star request on one compute framework ---------- *)
+Definition plain_jt (j : jointype) : bool := match j with INNER | LEFT | OUTER => true | _ => false end.
+(* the uuid of the root feature whose class is G *)
+Definition root_id (rs : list sroot) (G : nat) : nat :=
+  match find (fun r => Nat.eqb (sr_grp r) G) rs with Some r => sr_id r | None => 0 end.
+Definition star_root_step (g : fgraph) (cc p : nat) : lstep :=
+  LFG {| sid := 0; skind := KFG; uuids := [p]; req := []; requested := false |} (grp_of g p) cc (cir_of (p2c_of g) [p]) [] p.
+(* the JoinStep of Link l: LEFT table = the root of the Link's left class, RIGHT table = the root of its right class;
+   it waits for ALL roots of the consumer *)
+Definition star_join_step (rs : list sroot) (ps : list nat) (cc : nat) (l : plink) : lstep :=
+  LJOIN {| sid := 0; skind := KJOIN; uuids := [js_uid (pl_uid l); pl_uid l]; req := ps; requested := false |}
+        (pl_uid l) cc cc [root_id rs (lfg (pl_l l))] [root_id rs (rfg (pl_l l))].
+(* the consumer waits for all roots and for every needed Link *)
+Definition star_cons_step (ord : oparam) (g : fgraph) (ps : list nat) (f C cc : nat) (KS : list plink) : lstep :=
+  LFG {| sid := 0; skind := KFG; uuids := [f]; req := ord 3 (ps ++ map pl_uid KS); requested := true |}
+      C cc (cir_of (p2c_of g) [f]) [] f.
+Definition star_plan (ord : oparam) (g : fgraph) (rs : list sroot) (ps : list nat) (f C cc : nat) (KS : list plink) : list lstep :=
+  map (star_root_step g cc) ps ++ map (star_join_step rs ps cc) KS ++ [star_cons_step ord g ps f C cc KS].
+(* equal up to what add_tfs writes into feature-group steps for the run-time lookup: children_if_root, tfs_ids, any_uuid *)
+Definition same_steps (x y : lstep) : Prop :=
+  match x, y with
+  | LFG s grp cfw _ _ _, LFG s' grp' cfw' _ _ _ => s = s' /\ grp = grp' /\ cfw = cfw'
+  | LJOIN _ _ _ _ _ _, _ => x = y
+  | LTFS _ _ _ _ _ _, _ => x = y
+  | _, _ => False
+  end.
+Definition reject_code (j : jointype) : nat := match j with RIGHT => e_right | _ => e_appendunion end.
+
+(* ---------- two roots on two frameworks, one Link from the class of ra to the class of rb ---------- *)
+(* the framework the consumer computes on after ResolveComputeFrameworks.links = the LEFT framework of the JoinStep *)
+Definition two_left_cfw (l : plink) (rb : sroot) (cc : nat) : nat := if jt_eqb (jt (pl_l l)) RIGHT then sr_cfw rb else cc.
+Definition two_tfs_step (l : plink) (ps : list nat) (lf rf : nat) : lstep :=
+  LTFS {| sid := 0; skind := KTFS; uuids := [tfs_uid (pl_uid l)]; req := ps; requested := false |}
+       rf lf
+       (match jt (pl_l l) with RIGHT => lfg (pl_l l) | _ => rfg (pl_l l) end)
+       (match jt (pl_l l) with RIGHT => rfg (pl_l l) | _ => lfg (pl_l l) end) (Some (pl_uid l)).
+Definition two_join_step (l : plink) (ps : list nat) (lf rf : nat) (lus rus : list nat) : lstep :=
+  LJOIN {| sid := 0; skind := KJOIN; uuids := [js_uid (pl_uid l); pl_uid l]; req := ps ++ [tfs_uid (pl_uid l)]; requested := false |}
+        (pl_uid l) lf rf lus rus.
+Definition two_root_step (g : fgraph) (p : nat) : lstep :=
+  LFG {| sid := 0; skind := KFG; uuids := [p]; req := []; requested := false |} (grp_of g p) (cfw_of g p) (cir_of (p2c_of g) [p]) [] p.
+Definition two_cons_step (ord : oparam) (g : fgraph) (l : plink) (ps : list nat) (f C cn : nat) : lstep :=
+  LFG {| sid := 0; skind := KFG; uuids := [f]; req := ord 3 (ps ++ [pl_uid l]); requested := true |} C cn (cir_of (p2c_of g) [f]) [] f.
+(* the plan: both roots, the transform step that moves the RIGHT table to the LEFT framework, the join, the consumer.
+   The LEFT table of the merge is the root that lives on the consumer's (final) framework, whatever the Link says *)
+Definition two_plan (ord : oparam) (g : fgraph) (l : plink) (ra rb : sroot) (ps : list nat) (f C cc : nat) : list lstep :=
+  let cn := two_left_cfw l rb cc in
+  map (two_root_step g) ps ++
+  (if Nat.eqb cn (sr_cfw ra)
+   then [two_tfs_step l ps (sr_cfw ra) (sr_cfw rb); two_join_step l ps (sr_cfw ra) (sr_cfw rb) [sr_id ra] [sr_id rb]]
+   else [two_tfs_step l ps (sr_cfw rb) (sr_cfw ra); two_join_step l ps (sr_cfw rb) (sr_cfw ra) [sr_id rb] [sr_id ra]])
+  ++ [two_cons_step ord g l ps f C cn].
